@@ -2,6 +2,7 @@ pub mod common;
 pub mod c01;
 pub mod c11;
 pub mod c12;
+pub mod queue;
 pub mod barrier;
 pub mod pipegen;
 pub mod pipeprops;
@@ -9,7 +10,7 @@ pub mod pipeprops;
 use crate::profile::Profile;
 
 pub fn all() -> Vec<&'static Profile> {
-    vec![&c01::PROFILE, &pipeprops::C02, &pipeprops::C03, &barrier::C04, &pipeprops::C07, &pipeprops::C08, &c11::PROFILE, &c12::PROFILE, &barrier::C15]
+    vec![&c01::PROFILE, &pipeprops::C02, &pipeprops::C03, &barrier::C04, &queue::C05, &queue::C06, &pipeprops::C07, &pipeprops::C08, &c11::PROFILE, &c12::PROFILE, &barrier::C15]
 }
 
 pub fn by_id(id: &str) -> Option<&'static Profile> {
